@@ -77,4 +77,5 @@ def main():
                       "traces: random past formulas depth<=4 (25% with duplicated stateful sub-formulas) x random traces, "
                       "each update() return compared with the operational model; distinct = (text, inputs)")
 
-core.main(main)
+if __name__ == "__main__":
+    core.main(main)
